@@ -8,17 +8,36 @@ LEVEL = "exploration"
 RULE = (
     "C01 generator (all classes of all flavours, boundary-biased operands incl. negative integers/addresses, entries and "
     "slices with register indices): single instructions printed with str() and parsed back with the same flavour; whole "
-    "subroutines text->binary->text fixed point.  Non-trivial = instruction with >=1 operand (single) or subroutine with "
+    "subroutines text->binary->text fixed point (fresh decoder and one decoder object kept for the whole run); every parse with a "
+    "fresh flavour object and with a long-lived one after which other flavours were created; instructions printed, changed by "
+    "field assignment and printed again.  Non-trivial = instruction with >=1 operand (single) or subroutine with "
     ">=2 distinct classes; distinct by printed text.  Templates are outside the quantifier"
 )
 ASSUMPTIONS = ["str(instr) is the printed form meant by the property; lineno is not part of instruction identity"]
 SHARDS = {"quick": 1, "thorough": 16}
 
 
-def _parse(text: str, fname: str):
+_LONG_LIVED = {}
+_DESER = {}
+
+
+def _flavour(fname: str, policy: str):
+    """`fresh`: a new flavour object per parse; `long-lived`: one object per flavour kept for the whole process while
+    objects of the other flavours keep being created after it (as happens whenever anything is parsed without flavour=)"""
+    if policy == "fresh":
+        return g.FLAVOURS[fname]()
+    if fname not in _LONG_LIVED:
+        _LONG_LIVED[fname] = g.FLAVOURS[fname]()
+    for other in g.FLAVOURS:
+        if other != fname:
+            g.FLAVOURS[other]()
+    return _LONG_LIVED[fname]
+
+
+def _parse(text: str, fname: str, policy: str = "fresh"):
     from netqasm.lang.parsing.text import parse_text_subroutine
 
-    return parse_text_subroutine(text, flavour=g.FLAVOURS[fname]())
+    return parse_text_subroutine(text, flavour=_flavour(fname, policy))
 
 
 def check_single(fname: str, clsname: str, vals) -> str:
@@ -26,13 +45,38 @@ def check_single(fname: str, clsname: str, vals) -> str:
     instr = g.build(cls, vals)
     text = str(instr)
     case = {"kind": "instr", "flavour": fname, "cls": clsname, "vals": vals, "text": text}
+    for policy in ("fresh", "long-lived"):
+        try:
+            sub = _parse(text, fname, policy)
+        except Exception as e:
+            raise Failure(f"parse-raises:{fname}:{cls.mnemonic}", case, f"printed text {text!r} does not parse ({policy} flavour object): {type(e).__name__}: {e}")
+        got = sub.instructions
+        if len(got) != 1 or type(got[0]) is not cls or got[0] != instr:
+            raise Failure(f"parse-differs:{fname}:{cls.mnemonic}" + ("" if policy == "fresh" else ":long-lived-flavour"), case,
+                          f"{text!r} parsed back ({policy} flavour object) as {[type(i).__module__.split('.')[-1] + '.' + type(i).__name__ + ' ' + str(i) for i in got]}")
+    return text
+
+
+def check_reprint(fname: str, clsname: str, vals, vals2) -> str:
+    """an instruction that was printed, then changed through its fields, prints its current operands"""
+    cls = g.class_by_name(fname, clsname)
+    instr = g.build(cls, vals)
+    text0 = str(instr)
+    for (name, kind), v in zip(g.shape_of(cls), vals2):
+        setattr(instr, name, g.operand_from_json(kind, v))
+    text = str(instr)
+    case = {"kind": "reprint", "flavour": fname, "cls": clsname, "vals": vals, "vals2": vals2, "text": text}
+    fresh = g.build(cls, vals2)
+    if instr != fresh:
+        return text  # assignment is not a supported way to change this class: nothing to check
+    if text != str(fresh):
+        raise Failure(f"reprint:{fname}:{cls.mnemonic}", case, f"printed as {text0!r}, fields changed to those of {str(fresh)!r}, but it still prints {text!r}")
     try:
-        sub = _parse(text, fname)
+        got = _parse(text, fname).instructions
     except Exception as e:
-        raise Failure(f"parse-raises:{fname}:{cls.mnemonic}", case, f"printed text {text!r} does not parse: {type(e).__name__}: {e}")
-    got = sub.instructions
-    if len(got) != 1 or type(got[0]) is not cls or got[0] != instr:
-        raise Failure(f"parse-differs:{fname}:{cls.mnemonic}", case, f"{text!r} parsed back as {[str(i) for i in got]}")
+        raise Failure(f"reprint:parse-raises:{fname}:{cls.mnemonic}", case, f"{type(e).__name__}: {e}")
+    if len(got) != 1 or got[0] != instr:
+        raise Failure(f"reprint:{fname}:{cls.mnemonic}", case, f"second print {text!r} parses to a different instruction")
     return text
 
 
@@ -55,6 +99,18 @@ def check_sub(j) -> None:
     text3 = "\n".join(str(i) for i in s3.instructions)
     if text3 != text1:
         raise Failure("sub:not-fixed-point", case, f"text->binary->text changed:\n{text1}\n---\n{text3}")
+    # the same through a decoder object that lives as long as the process (a controller keeps one)
+    from netqasm.lang.parsing.binary import Deserializer
+
+    if fname not in _DESER:
+        _DESER[fname] = Deserializer(g.FLAVOURS[fname]())
+    try:
+        s4 = _DESER[fname].deserialize_subroutine(bytes(s2))
+    except Exception as e:
+        raise Failure("sub:long-lived-decoder-raises", case, f"{type(e).__name__}: {e}")
+    text4 = "\n".join(str(i) for i in s4.instructions)
+    if text4 != text1:
+        raise Failure("sub:not-fixed-point:long-lived-decoder", case, f"text->binary->text through a decoder that decoded other subroutines before changed:\n{text1}\n---\n{text4[:600]}")
 
 
 def shard(ctx: Ctx) -> None:
@@ -68,6 +124,18 @@ def shard(ctx: Ctx) -> None:
             stt.case(text + "|" + fname, len(vals) >= 1, [f"single:{fname}", "neg" if "-" in text else "nonneg"], sample={"flavour": fname, "text": text})
 
         ctx.search(g.st_instr(fname), body, n // 3, name=f"c17-{fname}", salt=fi)
+
+        def body_reprint(t, fname=fname):
+            cls = g.class_by_name(fname, t[0][0])
+            from hypothesis import strategies as st
+
+            vals2 = t[1].draw(st.tuples(*[g.st_operand(k) for _, k in g.shape_of(cls)]).map(list))
+            text = check_reprint(fname, t[0][0], t[0][2], vals2)
+            stt.case("reprint|" + text + "|" + str(t[0][2]) + "|" + fname, len(vals2) >= 1 and vals2 != t[0][2], [f"reprint:{fname}"])
+
+        from hypothesis import strategies as st
+
+        ctx.search(st.tuples(g.st_instr(fname), st.data()), body_reprint, n // 8, name=f"c17-reprint-{fname}", salt=20 + fi)
 
         def body_sub(j):
             stt.case(j, len({c for c, _m, _v in j["instrs"]}) >= 2, [f"sub:{j['flavour']}"])
@@ -89,7 +157,9 @@ def shard(ctx: Ctx) -> None:
 
 def replay(case):
     try:
-        if case["kind"] == "instr":
+        if case["kind"] == "reprint":
+            check_reprint(case["flavour"], case["cls"], case["vals"], case["vals2"])
+        elif case["kind"] == "instr":
             check_single(case["flavour"], case["cls"], case["vals"])
         else:
             check_sub({k: case[k] for k in ("flavour", "app_id", "version", "instrs")})
